@@ -25,7 +25,7 @@ PartialVecs ==
         P("ReadLease", Fill(44, 1), << >>, "lease"), P("ReadLease2", Fill(40, 1), << >>, "lease2") >>
 \* values that come back with an error for reasons other than truncation: every offset set to each boundary value (counts past their limit,
 \* unknown types, flag bits, lengths), every 16-bit boundary value at every offset; the methods of whatever the parser returns are called
-MutVecs == SeqMap(LAMBDA v : [op |-> "ByteSweep", fn |-> v.fn, in |-> v["in"], values |-> << 0, 1, 2, 3, 5, 16, 17, 18, 127, 128, 254, 255 >>, values2 |-> << 0, 256, 65535 >>,
+MutVecs == SeqMap(LAMBDA v : [op |-> "ByteSweep", fn |-> v.fn, in |-> v["in"], values |-> << 0, 1, 2, 3, 4, 5, 6, 7, 8, 9, 10, 11, 12, 13, 14, 15, 16, 17, 18, 19, 20, 21, 127, 128, 254, 255 >>, values2 |-> << 0, 256, 65535 >>,
                               step |-> 1, partial |-> TRUE, cls |-> "partial-" \o v.cls] @@ (IF "typ" \in DOMAIN v THEN [typ |-> v.typ] ELSE << >>), PartialVecs)
 \* "mutate, then sign": genuinely signed content with one structural defect (every offset of the covered region set to each boundary value before
 \* keys and signatures go into the reference slots).  What comes back together with an error must not verify.
